@@ -118,14 +118,19 @@ func Listening(address string) bool {
 }
 
 // Dial connects to a simulated listener.
-func Dial(address string) (net.Conn, error) {
+// Dial connects to a simulated listener with unbounded buffers in both directions.
+func Dial(address string) (net.Conn, error) { return DialCap(address, 0) }
+
+// DialCap is Dial with a bounded receive buffer at the dialling end: the server's writes block (as on a TCP
+// connection whose peer reads slowly) once recvCap bytes are waiting to be read. 0 = unbounded.
+func DialCap(address string, recvCap int) (net.Conn, error) {
 	regMu.Lock()
 	l, ok := listeners[address]
 	regMu.Unlock()
 	if !ok {
 		return nil, errors.New("simnet: connection refused: " + address)
 	}
-	a := &half{}
+	a := &half{cap: recvCap}
 	a.cond = sync.NewCond(&a.mu)
 	b := &half{}
 	b.cond = sync.NewCond(&b.mu)
@@ -144,13 +149,16 @@ func Dial(address string) (net.Conn, error) {
 
 // half is one direction of a connection: written by one end, read by the other.
 type half struct {
-	mu       sync.Mutex
-	cond     *sync.Cond
-	buf      []byte
-	wclosed  bool // writer closed: reader gets EOF after draining
-	rclosed  bool // reader closed: writer gets EPIPE
-	deadline time.Time
-	timer    *time.Timer
+	mu        sync.Mutex
+	cond      *sync.Cond
+	buf       []byte
+	wclosed   bool // writer closed: reader gets EOF after draining
+	rclosed   bool // reader closed: writer gets EPIPE
+	deadline  time.Time
+	timer     *time.Timer
+	cap       int       // >0: at most this many unread bytes; the writer blocks beyond
+	wdeadline time.Time // write deadline of the writing end
+	wtimer    *time.Timer
 }
 
 type conn struct {
@@ -178,6 +186,9 @@ func (c *conn) Read(p []byte) (int, error) {
 			if len(h.buf) == 0 {
 				h.buf = nil
 			}
+			if h.cap > 0 {
+				h.cond.Broadcast() // room for a blocked writer
+			}
 			return n, nil
 		}
 		if h.wclosed {
@@ -204,11 +215,42 @@ func (c *conn) Write(p []byte) (int, error) {
 		h.mu.Unlock()
 		return 0, &net.OpError{Op: "write", Net: "tcp", Err: errors.New("broken pipe")}
 	}
-	h.buf = append(h.buf, p...)
-	h.cond.Broadcast()
+	if !h.wdeadline.IsZero() && !time.Now().Before(h.wdeadline) {
+		h.mu.Unlock()
+		return 0, os.ErrDeadlineExceeded
+	}
+	if h.cap <= 0 {
+		h.buf = append(h.buf, p...)
+		h.cond.Broadcast()
+		h.mu.Unlock()
+		activity()
+		return len(p), nil
+	}
+	// bounded: hand over what fits, wait for the reader, repeat
+	written := 0
+	for written < len(p) {
+		for len(h.buf) >= h.cap {
+			if h.rclosed || h.wclosed {
+				h.mu.Unlock()
+				return written, &net.OpError{Op: "write", Net: "tcp", Err: errors.New("broken pipe")}
+			}
+			if !h.wdeadline.IsZero() && !time.Now().Before(h.wdeadline) {
+				h.mu.Unlock()
+				return written, os.ErrDeadlineExceeded
+			}
+			h.cond.Wait()
+		}
+		n := h.cap - len(h.buf)
+		if n > len(p)-written {
+			n = len(p) - written
+		}
+		h.buf = append(h.buf, p[written:written+n]...)
+		written += n
+		h.cond.Broadcast()
+	}
 	h.mu.Unlock()
 	activity()
-	return len(p), nil
+	return written, nil
 }
 
 func (c *conn) Close() error {
@@ -242,6 +284,7 @@ func (c *conn) RemoteAddr() net.Addr { return c.remote }
 
 func (c *conn) SetDeadline(t time.Time) error {
 	c.SetReadDeadline(t)
+	c.SetWriteDeadline(t)
 	return nil
 }
 
@@ -270,4 +313,24 @@ func (c *conn) SetReadDeadline(t time.Time) error {
 	return nil
 }
 
-func (c *conn) SetWriteDeadline(t time.Time) error { return nil }
+func (c *conn) SetWriteDeadline(t time.Time) error {
+	h := c.w
+	h.mu.Lock()
+	defer h.mu.Unlock()
+	if h.wtimer != nil {
+		h.wtimer.Stop()
+		h.wtimer = nil
+	}
+	h.wdeadline = t
+	if t.IsZero() {
+		return nil
+	}
+	if d := time.Until(t); d > 0 && h.cap > 0 {
+		h.wtimer = time.AfterFunc(d, func() {
+			h.mu.Lock()
+			h.cond.Broadcast()
+			h.mu.Unlock()
+		})
+	}
+	return nil
+}
